@@ -53,6 +53,11 @@ def run(ctx):
         for n, vlen in [(0, 0), (1, 23), (1, 24), (22, 1), (23, 1), (24, 1), (3, 255), (3, 256), (70, 10)] + ([(300, 3), (2, 65534), (2, 65535), (2, 65536), (2, 65537), (9, 60000)] if thorough else [(256, 1), (1, 65535), (2, 65536)]):
             e = ex(ver, b'https://example.com/', b'GET', big_headers(rng, n, vlen) if ver != 'b3' else [], 200, big_headers(rng, n, vlen))
             ops += [f'sxg.hdr {exs(e)}', f'sxg.write {exs(e)}', f'sxg.msg {exs(e)} {"bb" * 32} {hexs(b"https://example.com/v")} 5 10']
+        # header maps whose keys are not in canonical MIME form (filled by direct map assignment): lower case, upper case, mixed
+        for rs in ([(b'content-type', [b'text/html']), (b'x-note', [b'hello', b'world'])], [(b'CONTENT-TYPE', [b'text/html'])], [(b'x-Note', [b'v'])],
+                   [(b'Content-Type', [b'text/html']), (b'etag', [b'"x"']), (b'X-A', [b''])], [(b'x_under', [b'1'])], [(b'x-a', [b'1', b'', b'2'])]):
+            e = ex(ver, b'https://example.com/', b'GET', rs if ver != 'b3' else [], 200, rs, b'sig', b'payload')
+            ops += [f'sxg.hdr {exs(e)}', f'sxg.hdrint {exs(e)}', f'sxg.write {exs(e)}', f'sxg.msg {exs(e)} {"bb" * 32} {hexs(b"https://example.com/v")} 5 10']
         # request URL spellings that a parse / re-serialise step would change: the signed message and the file carry the bytes as given
         for uri in (b'https://example.com/a|b.html', b'https://example.com/caf\xc3\xa9', b'https://example.com/page#', b'HTTPS://example.com/', b'https://EXAMPLE.com/x',
                     b'https://example.com/%7Euser', b'https://example.com/%7euser', b'https://example.com/a b', b'https://example.com/?q=a|b&r=%41', b'https://example.com:443/',
@@ -78,4 +83,19 @@ def run(ctx):
         ops.append(f'http.canon {hexs(name)}')
     for _ in range(300):
         ops.append(f'http.canon {hexs(bytes(rng.choice(b"abAB-_ :1.") for _ in range(rng.randrange(0, 8))))}')
-    ctx.both(ops)
+    g_all, m_all = ctx.both(ops)
+    # an exchange obtained by ReadExchange, edited in place, then serialised / hashed again: outputs are those of the edited exchange
+    files = [(op, x.split(' ')[1]) for op, x in zip(ops, g_all) if op.startswith('sxg.write ') and x and x.startswith('ok ') and len(x) < 6000][:60 if not thorough else 600]
+    rr = []
+    for op, f in files:
+        e0 = op.split(' ')[1:9]
+        b = list(e0)
+        k = rng.randrange(4)
+        if k == 0: b[5] = (e0[5] + ';' if e0[5] != '.' else '') + hexs(b'Cache-Control') + '=' + hexs(b'max-age=600')
+        elif k == 1: b[4] = '203'
+        elif k == 2: b[7] = hexs(b'edited payload')
+        else: b[5] = hexs(b'Content-Type') + '=' + hexs(b'text/plain')
+        for what in ('write', 'hdr', 'hdrint'):
+            rr.append(f'sxg.reread {what} {f} {" ".join(b)}')
+            rr.append(f'sxg.reuse {what} {" ".join(e0)} {" ".join(b)}')
+    ctx.both(rr)
